@@ -356,7 +356,7 @@ def device_dual_mode_connect(slow: int, b_public: int, le_first: int) -> bool:
             a, b = devs
             seen = []
             a.on(a.EVENT_CONNECTION, seen.append)
-            loop.create_task(a.start_advertising(auto_restart=False))
+            loop.create_task(a.start_advertising(auto_restart=False, advertising_interval_min=1.0, advertising_interval_max=1.0))
             _run_until(loop, loop.now + 0.01)
 
             def classic():
